@@ -1,0 +1,33 @@
+//go:build verif
+
+package task
+
+import "sync/atomic"
+
+// Verification hooks (build tag verif only): an event sink called at the scheduling decisions of the
+// manager. Events named "*-pre" are emitted directly before an atomic action whose completion is reported
+// by the following event of the same goroutine, so that a sink can log action and event atomically.
+
+var (
+	verifSink func(ev string, inv int, val int64)
+	verifNext int64
+)
+
+// VerifOnEvent installs the event sink (nil removes it) and restarts invocation numbering at 0.
+func VerifOnEvent(f func(ev string, inv int, val int64)) {
+	verifSink = f
+	atomic.StoreInt64(&verifNext, 0)
+}
+
+func verifEvent(ev string, inv int, val int64) {
+	if f := verifSink; f != nil {
+		f(ev, inv, val)
+	}
+}
+
+// verifInvoke numbers the calls of InvokeBackgroundTask and reports "invoke".
+func verifInvoke() int {
+	id := int(atomic.AddInt64(&verifNext, 1)) - 1
+	verifEvent("invoke", id, 0)
+	return id
+}
